@@ -52,7 +52,9 @@ def _nontrivial_state(server):
     return None
 
 
-NETMODES = {"zero": (None, None), "lat1ms": (0.001, None), "seg7": (None, 7), "lat20ms_seg50": (0.02, 50)}
+NETMODES = {"zero": (None, None), "lat1ms": (0.001, None), "seg7": (None, 7), "lat20ms_seg50": (0.02, 50),
+            "slowio": (0.001, None)}
+SLOWIO = {"_open": 0.3, "read": 0.2, "write": 0.2, "list.next": 0.2, "stat": 0.1, "close": 0.1, "seek": 0.1}
 
 
 async def _scenario(loop, script_name, family, k, *, neighbour=None, delays=None, backend="mem", tmp=None,
@@ -67,6 +69,8 @@ async def _scenario(loop, script_name, family, k, *, neighbour=None, delays=None
     ctl.record = False
     if delays:
         ctl.delays = dict(delays)
+    if netmode == "slowio":
+        ctl.delays = dict(SLOWIO)
     fac = instrument(harness.BACKENDS[backend], ctl)
     kw = {}
     if backend != "mem":
@@ -194,7 +198,7 @@ def _case_list(tier):
     for mode in NETMODES:
         scripts = SCRIPTS_ALL
         if tier == "quick" and mode != "zero":
-            scripts = ["tour", "unused_data"] if mode == "lat1ms" else []
+            scripts = ["tour", "unused_data"] if mode == "lat1ms" else (["tour", "restart"] if mode == "slowio" else [])
         for s in scripts:
             leaks, info, victim = run_case(s, "peer_vanishes", None, netmode=mode)
             if leaks:
